@@ -103,7 +103,7 @@ def pointwise(h, op='coords:poincare', shape=(2,), n=2):
         y = _interior(h, 'y', shape, n)
         Q = hyperbolic.Point(y.copy(), model="klein")
         d = P.distance(Q)
-        E = (lambda v: v.expo()) if h.is_sym() else np.exp
+        E = h.expo
         h.eq("shape", np.array(np.asarray(d, dtype=object).shape), np.array(shape))
         for idx in np.ndindex(*shape):
             du = hyperbolic.Point(x[idx].copy(), model="klein").distance(hyperbolic.Point(y[idx].copy(), model="klein"))
